@@ -2322,3 +2322,179 @@ def expa_values(self, result):
     average"""
     return (forall(range(len(self.x) - 1), lambda q: forall(range(self.n), lambda j: eq(result[1][q * self.n + j], fea(self, q + 1, j))))
             and eq(result[1][(len(self.x) - 1) * self.n], ye(self, len(self.x))))
+
+
+# =============================================================================== lemmas over the ExpAdaptiveRFA closed form
+
+def expa_wf(self):
+    return (series_in(self) and self.a >= 2 and self.a <= self.n and self.adaptive_smooth > 0 and 0 <= self.beta and self.beta <= 1
+            and self.exp > 0)
+
+
+LBX = 'lemma:rfa.exp_adaptive.bounds'
+contract(LBX, params=dict(self=Obj(EXPA), K=Int, j=Int), lemma=True, no_rt=True)
+
+
+@requires(LBX)
+def lbx_pre(self, K, j):
+    return expa_wf(self) and interior(self, K, j)
+
+
+@hint(LBX, when='entry')
+def lbx_h_windows(self, K, j):
+    return (0 <= wl(self, K) and wl(self, K) <= self.a and 0 <= wr(self, K) and wr(self, K) <= self.a
+            and 0 <= wr(self, K - 1) and wr(self, K - 1) <= self.a and 0 <= wl(self, K + 1) and wl(self, K + 1) <= self.a
+            and 0 <= bl(self, K) and bl(self, K) <= wl(self, K) and 0 <= br(self, K) and br(self, K) <= wr(self, K))
+
+
+@hint(LBX, when='entry')
+def lbx_h_ties(self, K, j):
+    return (implies(wr(self, K - 1) == 0 and wl(self, K) == 0 and K >= 2, ye(self, K - 1) == ye(self, K))
+            and implies(wr(self, K) == 0 and wl(self, K + 1) == 0 and K <= len(self.x) - 2, ye(self, K) == ye(self, K + 1)))
+
+
+@hint(LBX, when='entry')
+def lbx_h_order(self, K, j):
+    return (implies(wr(self, K - 1) >= 1, xl(self, K, wr(self, K - 1)) < xe(self, K, 0))
+            and implies(wl(self, K) >= 1, xe(self, K, 0) < xr(self, K, wl(self, K)))
+            and implies(wr(self, K) >= 1, xr(self, K, self.n - wr(self, K)) < xe(self, K + 1, 0))
+            and implies(wl(self, K + 1) >= 1, xe(self, K + 1, 0) < xr(self, K + 1, wl(self, K + 1)))
+            and xl(self, K, wr(self, K - 1)) <= xe(self, K, 0) and xe(self, K, 0) <= xr(self, K, wl(self, K))
+            and xr(self, K, self.n - wr(self, K)) <= xe(self, K + 1, 0) and xe(self, K + 1, 0) <= xr(self, K + 1, wl(self, K + 1))
+            and xe(self, K, 0) <= xr(self, K, bl(self, K)) and xr(self, K, bl(self, K)) <= xr(self, K, wl(self, K))
+            and xr(self, K, self.n - wr(self, K)) <= xr(self, K, self.n - br(self, K)) and xr(self, K, self.n - br(self, K)) <= xe(self, K + 1, 0))
+
+
+@hint(LBX, when='entry')
+def lbx_h_order_j(self, K, j):
+    return (implies(j < bl(self, K), xe(self, K, 0) <= xe(self, K, j) and xe(self, K, j) < xr(self, K, bl(self, K)))
+            and implies(bl(self, K) <= j and j < wl(self, K), xr(self, K, bl(self, K)) <= xe(self, K, j) and xe(self, K, j) < xr(self, K, wl(self, K)))
+            and implies(self.n - wr(self, K) <= j and j < self.n - br(self, K),
+                        xr(self, K, self.n - wr(self, K)) <= xe(self, K, j) and xe(self, K, j) < xr(self, K, self.n - br(self, K)))
+            and implies(self.n - br(self, K) <= j, xr(self, K, self.n - br(self, K)) <= xe(self, K, j) and xe(self, K, j) < xe(self, K + 1, 0)))
+
+
+@hint(LBX, when='entry')
+def lbx_h_borders(self, K, j):
+    return between(z0a(self, K), ye(self, K - 1), ye(self, K)) and between(z0a(self, K + 1), ye(self, K), ye(self, K + 1))
+
+
+@hint(LBX, when='entry')
+def lbx_h_breaks(self, K, j):
+    return between(zlba(self, K), z0a(self, K), ye(self, K)) and implies(wr(self, K) >= 1, between(zrba(self, K), ye(self, K), z0a(self, K + 1)))
+
+
+@ensures(LBX)
+def lbx_plateau(self, K, j):
+    """C05: between the two windows the samples equal the average"""
+    return implies(wl(self, K) <= j and j < self.n - wr(self, K), fea(self, K, j) == ye(self, K))
+
+
+@ensures(LBX)
+def lbx_left_linear(self, K, j):
+    return implies(j < bl(self, K), between(fea(self, K, j), z0a(self, K), zlba(self, K)))
+
+
+@ensures(LBX)
+def lbx_left_blend(self, K, j):
+    return implies(bl(self, K) <= j and j < wl(self, K), between(fea(self, K, j), zlba(self, K), ye(self, K)))
+
+
+@ensures(LBX)
+def lbx_right_ratio(self, K, j):
+    """inside the right blend the two weights are t in [0, 1) and 1 - t"""
+    return implies(self.n - wr(self, K) <= j and j < self.n - br(self, K),
+                   0 <= ratio(xe(self, K, j), xr(self, K, self.n - wr(self, K)), xr(self, K, self.n - br(self, K)))
+                   and ratio(xe(self, K, j), xr(self, K, self.n - wr(self, K)), xr(self, K, self.n - br(self, K))) < 1
+                   and (xr(self, K, self.n - br(self, K)) - xe(self, K, j)) / (xr(self, K, self.n - br(self, K)) - xr(self, K, self.n - wr(self, K)))
+                   == 1 - ratio(xe(self, K, j), xr(self, K, self.n - wr(self, K)), xr(self, K, self.n - br(self, K))))
+
+
+def rt_(self, K, j):
+    return ratio(xe(self, K, j), xr(self, K, self.n - wr(self, K)), xr(self, K, self.n - br(self, K)))
+
+
+@ensures(LBX)
+def lbx_right_weight(self, K, j):
+    """the blend is y0 + (y1 - y0) * c with c = t*t + t^exp * (1 - t) in [0, 1]"""
+    return implies(self.n - wr(self, K) <= j and j < self.n - br(self, K),
+                   0 <= pw(rt_(self, K, j), self.exp) and pw(rt_(self, K, j), self.exp) <= 1
+                   and 0 <= rt_(self, K, j) * rt_(self, K, j) + pw(rt_(self, K, j), self.exp) * (1 - rt_(self, K, j))
+                   and rt_(self, K, j) * rt_(self, K, j) + pw(rt_(self, K, j), self.exp) * (1 - rt_(self, K, j)) <= 1
+                   and fa4(self, K, j) == ye(self, K) + (zrba(self, K) - ye(self, K))
+                   * (rt_(self, K, j) * rt_(self, K, j) + pw(rt_(self, K, j), self.exp) * (1 - rt_(self, K, j))))
+
+
+@ensures(LBX)
+def lbx_right_blend(self, K, j):
+    return implies(self.n - wr(self, K) <= j and j < self.n - br(self, K), between(fea(self, K, j), ye(self, K), zrba(self, K)))
+
+
+@ensures(LBX)
+def lbx_right_linear(self, K, j):
+    return implies(self.n - br(self, K) <= j and wr(self, K) >= 1, between(fea(self, K, j), zrba(self, K), z0a(self, K + 1)))
+
+
+@ensures(LBX)
+def lbx_left(self, K, j):
+    """C05: every left transition sample lies between the two adjacent averages"""
+    return implies(j < wl(self, K), between(fea(self, K, j), ye(self, K - 1), ye(self, K)))
+
+
+@ensures(LBX)
+def lbx_right(self, K, j):
+    return implies(self.n - wr(self, K) <= j, between(fea(self, K, j), ye(self, K), ye(self, K + 1)))
+
+
+LLX = 'lemma:rfa.exp_adaptive.locality'
+contract(LLX, params=dict(s1=Obj(EXPA), s2=Obj(EXPA), K=Int, j=Int), lemma=True, no_rt=True)
+
+
+def same_setup_x(s1, s2):
+    return (len(s1.x) == len(s2.x) and s1.n == s2.n and s1.a == s2.a and s1.adaptive_smooth == s2.adaptive_smooth and s1.beta == s2.beta
+            and s1.exp == s2.exp)
+
+
+@requires(LLX)
+def llx_pre(s1, s2, K, j):
+    return (expa_wf(s1) and expa_wf(s2) and same_setup_x(s1, s2) and interior(s1, K, j)
+            and forall(range(len(s1.x)), lambda i: s2.x[i] == s1.x[i])
+            and forall(range(len(s1.x)), lambda i: s2.y[i] == s1.y[i] if (K - 3 <= i and i <= K + 1) else True)
+            and 3 <= K and K <= len(s1.x) - 3)
+
+
+@hint(LLX, when='entry')
+def llx_h_averages(s1, s2, K, j):
+    return (ye(s2, K - 2) == ye(s1, K - 2) and ye(s2, K - 1) == ye(s1, K - 1) and ye(s2, K) == ye(s1, K) and ye(s2, K + 1) == ye(s1, K + 1)
+            and ye(s2, K + 2) == ye(s1, K + 2))
+
+
+@hint(LLX, when='entry')
+def llx_h_windows(s1, s2, K, j):
+    return (wl(s2, K) == wl(s1, K) and wr(s2, K) == wr(s1, K) and wr(s2, K - 1) == wr(s1, K - 1) and wl(s2, K + 1) == wl(s1, K + 1)
+            and bl(s2, K) == bl(s1, K) and br(s2, K) == br(s1, K))
+
+
+@hint(LLX, when='entry')
+def llx_h_grid(s1, s2, K, j):
+    return (xe(s2, K, j) == xe(s1, K, j) and xe(s2, K, 0) == xe(s1, K, 0) and xe(s2, K + 1, 0) == xe(s1, K + 1, 0)
+            and xr(s2, K, wl(s1, K)) == xr(s1, K, wl(s1, K)) and xr(s2, K, bl(s1, K)) == xr(s1, K, bl(s1, K))
+            and xr(s2, K, s1.n - wr(s1, K)) == xr(s1, K, s1.n - wr(s1, K)) and xr(s2, K, s1.n - br(s1, K)) == xr(s1, K, s1.n - br(s1, K))
+            and xl(s2, K, wr(s1, K - 1)) == xl(s1, K, wr(s1, K - 1))
+            and xl(s2, K + 1, wr(s1, K)) == xl(s1, K + 1, wr(s1, K)) and xr(s2, K + 1, wl(s1, K + 1)) == xr(s1, K + 1, wl(s1, K + 1)))
+
+
+@hint(LLX, when='entry')
+def llx_h_borders(s1, s2, K, j):
+    return (z0a(s2, K) == z0a(s1, K) and z0a(s2, K + 1) == z0a(s1, K + 1) and zlba(s2, K) == zlba(s1, K) and zrba(s2, K) == zrba(s1, K))
+
+
+@hint(LLX, when='entry')
+def llx_h_pieces(s1, s2, K, j):
+    return (fa1(s2, K, j) == fa1(s1, K, j) and fa2(s2, K, j) == fa2(s1, K, j) and fa4(s2, K, j) == fa4(s1, K, j) and fa5(s2, K, j) == fa5(s1, K, j))
+
+
+@ensures(LLX)
+def llx_local(s1, s2, K, j):
+    """C07: a recreated value of an interval reads only that interval's average and two neighbours on each side"""
+    return fea(s2, K, j) == fea(s1, K, j)
